@@ -4,12 +4,16 @@
 //
 // Input  : (cmds script)
 //
-//	cmds   := ((q tmo (t mode)*)*)   command index = position; model id = 100+index
+//	cmds   := ((q tmo (t mode [arg])*)*)   command index = position; model id = 100+index
 //	          q    queue index (queues share ONE Servent; the core has one queue)
 //	          tmo  ResponseTimeout in ms, 0 = long (30 s, never expected to fire)
 //	          mode ok | fail | (auto tag err)   what the injected send function does:
 //	               return nil / return an error / hand the target's reply to
 //	               ProcessResponse from inside the send call, then return nil
+//	               (tag+t odd: the send call also yields the processor once, so the
+//	               reply is usually looked up BEFORE the send call returns)
+//	          arg  optional, >= 1: the command's argument map binds this target to
+//	               {"k": "v<arg>"} (no arg: no binding for the target)
 //	script := (action*)               executed in order by ONE driver goroutine
 //	          (E c+)          Enqueue; several commands = concurrently, from one goroutine each
 //	          (W c t)         wait until the send function has been called for (c,t)
@@ -19,8 +23,21 @@
 //
 // Obs    : (events final)   the linearisation the harness observed (one mutex):
 //
-//	(S c t ok)                 send function called for (c,t), returned ok/error
-//	(R id t tag err)           ProcessResponse issued (id = 100+c, or 900+n)
+//	(S c t ok tmo arg)         send function ENTERED for (c,t) (it returns ok/error); the
+//	                           command object it was handed — the one RunCommand registers
+//	                           and arms its timer with — has GetResponseTimeout() = tmo
+//	                           (ms; 0 = the long value given to the command) and
+//	                           Arguments = {"k": "v<arg>"} (0 = the empty map); any other
+//	                           deviation from "the command restricted to t" (name, id,
+//	                           environment, target list, transition fields, nil arguments)
+//	                           is appended as an atom, which the Lean side rejects
+//	(R id t tag err)           ProcessResponse issued (id = 100+c, or 900+n), recorded BEFORE the call
+//	(P id t tag err early)     that ProcessResponse returned, recorded AFTER the return; early =
+//	                           less than the handed command's response timeout had passed since
+//	                           (S c t ..) was recorded (monotonic clock): the caller's timer,
+//	                           armed only after the send function returned, cannot have fired
+//	                           before this reply was looked up. A clock reading is used only
+//	                           as a witness of an ORDER, never as a deadline.
 //	(D c result)               a value arrived on c's callback channel
 //	final := ((c result)*)     every received result read AGAIN at the very end
 //	result := nil | (single entry) | (multi id ((t entry)*) (errs t*))
@@ -117,6 +134,7 @@ type tspec struct {
 	mode string // ok | fail | auto
 	tag  int
 	err  bool
+	arg  int // >= 1: argMap[target] = {"k": "v<arg>"}; 0: no binding
 }
 
 type cspec struct {
@@ -136,6 +154,9 @@ type run struct {
 	servent *controlcommands.Servent
 
 	sendSeen map[[2]int]chan struct{}
+	sendAt   map[[2]int]time.Time     // (c,t) -> when (S c t ..) was recorded
+	sendDur  map[[2]int]time.Duration // (c,t) -> GetResponseTimeout() of the command handed to the send function
+	closed   bool                     // the observation has been read: nothing is recorded any more
 	doneCh   []chan struct{}
 	results  [][]controlcommands.MesosCommandResponse // per command: everything received on its callback
 	firstS   []time.Time
@@ -199,6 +220,18 @@ func (r *run) issue(mid, c, t, tag int, isErr bool, id xid.ID) (chan struct{}, e
 	r.mu.Unlock()
 	go func() {
 		r.servent.ProcessResponse(res, target(t))
+		now := time.Now()
+		r.mu.Lock()
+		if !r.closed {
+			early := false
+			if c >= 0 {
+				if st, ok := r.sendAt[[2]int{c, t}]; ok {
+					early = now.Sub(st) < r.sendDur[[2]int{c, t}]
+				}
+			}
+			r.record(sx.L(sx.A("P"), sx.I(mid), sx.I(t), sx.I(tag), sx.B(isErr), sx.B(early)))
+		}
+		r.mu.Unlock()
 		close(returned)
 	}()
 	return returned, nil
@@ -260,13 +293,29 @@ func (r *run) send(command controlcommands.MesosCommand, receiver controlcommand
 		return nil
 	}
 	ok := spec.mode != "fail"
-	ev := sx.L(sx.A("S"), sx.I(c), sx.I(t), sx.B(ok))
-	if command.IsMultiCmd() {
-		ev.Add(sx.A("not-single-target"))
+	// what the send function is handed: RunCommand's `cmd`, i.e. what commit made
+	// of the command for this target (MakeSingleTarget)
+	d := command.GetResponseTimeout()
+	tmoMs := int(d / time.Millisecond)
+	if r.cmds[c].long {
+		if d == r.cmds[c].tmo {
+			tmoMs = 0
+		} else if tmoMs == 0 {
+			tmoMs = 1
+		}
+	}
+	arg, anomalies := r.singleView(c, command, receiver)
+	ev := sx.L(sx.A("S"), sx.I(c), sx.I(t), sx.B(ok), sx.I(tmoMs), sx.I(arg))
+	for _, a := range anomalies {
+		ev.Add(sx.A(a))
 	}
 	r.mu.Lock()
 	if r.firstS[c].IsZero() {
 		r.firstS[c] = time.Now()
+	}
+	if _, seen := r.sendAt[[2]int{c, t}]; !seen {
+		r.sendAt[[2]int{c, t}] = time.Now()
+		r.sendDur[[2]int{c, t}] = d
 	}
 	r.record(ev)
 	ch := r.sendSeen[[2]int{c, t}]
@@ -280,6 +329,12 @@ func (r *run) send(command controlcommands.MesosCommand, receiver controlcommand
 			r.fail = err
 			r.mu.Unlock()
 		}
+		if (spec.tag+spec.t)%2 == 1 {
+			// let the goroutine that carries the reply run first: the class "the reply is
+			// processed before the send call returns" (a fast executor, a slow scheduler
+			// call) is then met on purpose rather than by luck. No clock involved.
+			runtime.Gosched()
+		}
 	}
 	select {
 	case <-ch:
@@ -290,6 +345,47 @@ func (r *run) send(command controlcommands.MesosCommand, receiver controlcommand
 		return errors.New(sendErrText)
 	}
 	return nil
+}
+
+// singleView reads off the command object handed to the send function everything
+// MakeSingleTarget must preserve. The argument token and the response timeout go
+// into the event as data; anything else that deviates is named.
+func (r *run) singleView(c int, command controlcommands.MesosCommand, receiver controlcommands.MesosCommandTarget) (arg int, anomalies []string) {
+	orig := r.real[c]
+	tc, ok := command.(*controlcommands.MesosCommand_Transition)
+	if !ok || tc == nil {
+		return 0, []string{fmt.Sprintf("not-a-transition:%T", command)}
+	}
+	if command.IsMultiCmd() || len(tc.TargetList) != 1 || tc.TargetList[0] != receiver {
+		anomalies = append(anomalies, "not-single-target")
+	}
+	if tc.GetName() != orig.GetName() {
+		anomalies = append(anomalies, "other-name")
+	}
+	if tc.GetId() != orig.GetId() {
+		anomalies = append(anomalies, "other-id")
+	}
+	if tc.GetEnvironmentId() != orig.GetEnvironmentId() {
+		anomalies = append(anomalies, "other-environment")
+	}
+	if tc.Source != orig.Source || tc.Event != orig.Event || tc.Destination != orig.Destination {
+		anomalies = append(anomalies, "other-transition")
+	}
+	switch {
+	case tc.Arguments == nil:
+		anomalies = append(anomalies, "nil-arguments")
+	case len(tc.Arguments) == 0:
+		arg = 0
+	case len(tc.Arguments) == 1 && strings.HasPrefix(tc.Arguments["k"], "v"):
+		n, err := strconv.Atoi(tc.Arguments["k"][1:])
+		if err != nil || n < 1 {
+			anomalies = append(anomalies, "other-arguments")
+		}
+		arg = n
+	default:
+		anomalies = append(anomalies, "other-arguments")
+	}
+	return arg, anomalies
 }
 
 // entry classifies one per-target response found in a result.
@@ -389,7 +485,16 @@ func parseInput(in *sx.Node) ([]cspec, []*sx.Node, error) {
 			cs.tmo, cs.long = longTimeout(), true
 		}
 		for _, tn := range cn.List[2:] {
+			if tn.Len() != 2 && tn.Len() != 3 {
+				return nil, nil, fmt.Errorf("bad target")
+			}
 			ts := tspec{t: tn.At(0).Int()}
+			if tn.Len() == 3 {
+				ts.arg = tn.At(2).Int()
+				if ts.arg < 1 {
+					return nil, nil, fmt.Errorf("bad arg")
+				}
+			}
 			m := tn.At(1)
 			if m.IsList {
 				ts.mode, ts.tag, ts.err = m.At(0).Str(), m.At(1).Int(), m.At(2).Bool()
@@ -424,6 +529,7 @@ func runImpl(input string) (obs string, err error) {
 		return "", err
 	}
 	r := &run{events: sx.L(), cmds: cmds, idOf: map[xid.ID]int{}, sendSeen: map[[2]int]chan struct{}{},
+		sendAt: map[[2]int]time.Time{}, sendDur: map[[2]int]time.Duration{},
 		lastKey: map[[2]int]chan struct{}{}, endCh: make(chan struct{})}
 	r.servent = controlcommands.NewServent(r.send)
 	queues := map[int]*controlcommands.CommandQueue{}
@@ -431,11 +537,18 @@ func runImpl(input string) (obs string, err error) {
 	env := uid.New()
 	for c, cs := range cmds {
 		var recv []controlcommands.MesosCommandTarget
+		var args controlcommands.PropertyMapsMap // nil unless some target has arguments
 		for _, ts := range cs.targets {
 			recv = append(recv, target(ts.t))
 			r.sendSeen[[2]int{c, ts.t}] = make(chan struct{})
+			if ts.arg > 0 {
+				if args == nil {
+					args = controlcommands.PropertyMapsMap{}
+				}
+				args[target(ts.t)] = controlcommands.PropertyMap{"k": "v" + strconv.Itoa(ts.arg)}
+			}
 		}
-		cmd := controlcommands.NewMesosCommand_Transition(env, recv, "STANDBY", "CONFIGURE", "CONFIGURED", nil)
+		cmd := controlcommands.NewMesosCommand_Transition(env, recv, "STANDBY", "CONFIGURE", "CONFIGURED", args)
 		cmd.ResponseTimeout = cs.tmo // the exported field, as core/task/manager.go sets it
 		r.real = append(r.real, cmd)
 		r.idOf[cmd.Id] = 100 + c
@@ -607,6 +720,7 @@ func runImpl(input string) (obs string, err error) {
 	if r.fail != nil {
 		return "", r.fail
 	}
+	r.closed = true
 	final := sx.L()
 	for c := range cmds {
 		for _, v := range r.results[c] {
@@ -663,10 +777,12 @@ func init() {
 		RunImpl:    runImpl,
 		Nontrivial: nontrivial,
 		Rule: "scripted scenarios on the real Servent+CommandQueue(s): 1..4 commands x 0..8 targets from a shared pool of 10, " +
-			"per-target behaviour in {reply, error reply, send failure, silence->timeout (ResponseTimeout 25..60 ms), reply from inside send}, " +
+			"per-target behaviour in {reply, error reply, send failure, silence->timeout (ResponseTimeout 25..60 ms), reply from inside send " +
+				"(half of them with a yield so that the reply is processed before the send call returns)}, optional per-target arguments, " +
 			"plus duplicate / late / early / foreign-id / wrong-sender / other-command replies in scripted arrival orders, sequential or " +
 			"concurrent Enqueue, one queue (as the core) or two queues on one Servent; the observed linearisation is replayed on the Lean " +
-			"model as a monitor and Spec.C12 is evaluated on it; non-trivial = >=2 commands or >=2 targets, and >=1 reply that is not the " +
+			"model as a monitor (incl. the response timeout and arguments of the command object each send call is handed, and the returns " +
+				"of ProcessResponse) and Spec.C12 is evaluated on it; non-trivial = >=2 commands or >=2 targets, and >=1 reply that is not the " +
 			"first own reply of a pending call (dup/late/early/foreign/wrong) or >=1 timeout/send failure; distinct by input text",
 		Shrink:   shrinkCands,
 		Search:   search,
@@ -680,7 +796,8 @@ func init() {
 		Assumptions: []string{
 			"distinct command ids (xid.New) and per-command distinct targets (Tasks.GetMesosCommandTargets)",
 			"the order in which the harness records events under its mutex is a linearisation of the calls it makes/receives; a reply is issued on a key only after the previous reply on that key returned or its command completed",
-			"wall-clock: 'within its response timeout' is observed (timing.json: max (send..callback)/ResponseTimeout), not verified",
+			"wall-clock: 'within its response timeout' is observed (timing.json: max (send..callback)/ResponseTimeout), not verified; what IS checked without a clock: every target is waited for with the command's own ResponseTimeout (the value carried by the command object handed to the send function, which RunCommand arms its timer with)",
+			"Go timers do not fire early on the monotonic clock: a ProcessResponse that returned less than the call's response timeout after the send function was entered was looked up before the caller's timeout branch could run (flag `early` of the P event)",
 		},
 	})
 }
